@@ -150,6 +150,10 @@ func TestVerifEpochData(t *testing.T) {
 				res.Sample(map[string]any{"behaviour": b.ID, "blocks": len(hdr), "lookups": len(s.Obs)})
 			}
 			// ---- every (epoch, block) lookup -----------------------------------------------
+			cnOf := map[uint64]int{}
+			for _, q := range s.Obs {
+				cnOf[q.E] = q.Cn
+			}
 			for _, q := range s.Obs {
 				if poisoned {
 					break
@@ -202,13 +206,21 @@ func TestVerifEpochData(t *testing.T) {
 						break
 					}
 					// --- configuration: announced on the ancestry for the epoch, else latest earlier, else genesis
+					// class: where the walk from epoch q.E down to the expected configuration's epoch
+					// passes an epoch whose configuration was announced on OTHER forks only
 					ccls := "config-announced-on-ancestry"
 					if q.E == 0 {
 						ccls = "epoch-0"
 					} else if q.C == 0 || epochOf[q.C]+1 != q.E {
 						ccls = "falls-back-to-earlier-config"
-						if q.Cn > 0 {
-							ccls = "epoch-config-on-other-fork-only"
+						low := uint64(1)
+						if q.C != 0 {
+							low = epochOf[q.C] + 2
+						}
+						for e := low; e <= q.E; e++ {
+							if cnOf[e] > 0 {
+								ccls = "passes-epoch-announced-on-other-fork-only"
+							}
 						}
 					}
 					csig := "GetConfigData/" + ccls + "/" + dcls
